@@ -149,6 +149,11 @@ Search::Search(const Position& position, const Limits& limits,
         const Move* begin = limits.searchmoves;
         const Move* end = limits.searchmoves + limits.searchmovesnum;
         _root_moves.insert(_root_moves.end(), begin, end);
+        // table key salt of this restricted root: a hash of the list
+        _root_key_salt = 0x9E3779B97F4A7C15ULL;
+        for (const Move* m = begin; m != end; ++m)
+            _root_key_salt = (_root_key_salt ^ uint64_t(*m)) * 0x100000001B3ULL;
+        if (_root_key_salt == 0) _root_key_salt = 1;
     }
     else
     {
@@ -361,6 +366,12 @@ Value Search::search(Position& position, Depth depth, Value alpha, Value beta,
     clear_pv_list(info);
 
     const bool ROOT_NODE = info->_ply == 0;
+    // the value of a root restricted by searchmoves is not the position's own
+    // value: its table entry lives under a key of its own (_root_key_salt is 0
+    // without searchmoves), so that a later search with other root moves
+    // does not read it, while this search still settles its window with it
+    const uint64_t NODE_KEY =
+        ROOT_NODE ? position.hash() ^ _root_key_salt : position.hash();
     const bool PV_NODE = beta != alpha + 1;
     const bool IS_NULL = (info - 1)->_current_move == NO_MOVE;
     VERIF_NODE(0)
@@ -408,13 +419,13 @@ Value Search::search(Position& position, Depth depth, Value alpha, Value beta,
 
     Value bestValue = -VALUE_INFINITE;
     bool found = false;
-    auto entryPtr = _ttable.probe(position.hash(), found);
+    auto entryPtr = _ttable.probe(NODE_KEY, found);
 
     // internal iterative deepening
     if (PV_NODE && !found && depth > 5)
     {
         search(position, depth - 2, alpha, beta, info);
-        entryPtr = _ttable.probe(position.hash(), found);
+        entryPtr = _ttable.probe(NODE_KEY, found);
     }
 
     if (found && (entryPtr->value.depth >= depth) &&
@@ -621,7 +632,7 @@ Value Search::search(Position& position, Depth depth, Value alpha, Value beta,
 
                     tt::TTEntry entry(result, depth, tt::Flag::kLOWER_BOUND,
                                       move);
-                    _ttable.insert(position.hash(), entry);
+                    _ttable.insert(NODE_KEY, entry);
 
 #if LOG_LEVEL > 1
                     {
@@ -655,7 +666,7 @@ Value Search::search(Position& position, Depth depth, Value alpha, Value beta,
     {
         tt::Flag flag = PV_NODE ? tt::Flag::kEXACT : tt::Flag::kUPPER_BOUND;
         tt::TTEntry entry(bestValue, depth, flag, best_move);
-        _ttable.insert(position.hash(), entry);
+        _ttable.insert(NODE_KEY, entry);
 
         LOG_DEBUG("[%d] BEST MOVE %s", info->_ply,
                   position.uci(best_move).c_str());
